@@ -52,7 +52,17 @@ namespace sim
 		do {
 
 			m_service.restart();
+#ifdef LIBSIMULATOR_VERIF
+			if (verif_step_hook) verif_step_hook(3);
+			last_executed = 0;
+			while (m_service.poll_one() > 0)
+			{
+				++last_executed;
+				if (verif_step_hook) verif_step_hook(0);
+			}
+#else
 			last_executed = m_service.poll();
+#endif
 			ret += last_executed;
 
 			chrono::high_resolution_clock::time_point now
@@ -64,6 +74,9 @@ namespace sim
 				chrono::high_resolution_clock::fast_forward(next_timer->expiry() - now);
 
 				now = chrono::high_resolution_clock::now();
+#ifdef LIBSIMULATOR_VERIF
+				if (verif_step_hook) verif_step_hook(1);
+#endif
 
 				while (!m_timer_queue.empty()
 					&& (*m_timer_queue.begin())->expiry() <= now) {
